@@ -28,6 +28,17 @@ TIERS = ("borrowed_templates", "owned_templates")
 MUTATORS = ("::insert", "::remove", "::replace", "::clear", "::push", "::pop", "::retain", "::entry",
             "::get_or_try_insert", "::get_or_insert", "::extend", "::append", "::truncate", "::drain", "::take")
 
+# what the map insertion APIs used by the store do to an existing entry (std / memo-map documentation)
+MAP_API = {
+    "alloc::collections::btree::map::BTreeMap::insert": "overwrite",
+    "std::collections::hash::map::HashMap::insert": "overwrite",
+    "memo_map::MemoMap::replace": "overwrite",
+    "memo_map::MemoMap::insert": "keep-first",
+    "memo_map::MemoMap::get_or_insert": "keep-first",
+    "memo_map::MemoMap::get_or_try_insert": "keep-first",
+    "memo_map::MemoMap::get_or_insert_owned": "keep-first",
+}
+
 GLOBAL_STATE = {
     "minijinja::compiler::codegen::PENDING_BLOCK_POOL": "thread-local pool of emptied Vec buffers (U4: cleared on take)",
     "minijinja::compiler::codegen::SPAN_STACK_POOL": "thread-local pool of emptied Vec buffers (U4: cleared on take)",
@@ -180,6 +191,21 @@ def run(ctx):
         for c, tier in ins:
             n2 += 1
             other = TIERS[1 - TIERS.index(tier)]
+            # explicit additions (`&mut self`) must install the new template whatever was there before; the lazy
+            # loader fill (`&self`) must keep what was loaded first.  Which map API does which is library knowledge,
+            # kept as a reviewed table; an API not in the table is reported.
+            explicit = f.locals[1].get("s", "").startswith("&mut ")
+            sem = MAP_API.get(c.name)
+            if explicit:
+                ctx.ob("C15.U2.explicit-add-overwrites", "%s|%s" % (f.path, tier), sem == "overwrite",
+                       "%s %s: a template added explicitly under a name that is already present in %s would be "
+                       "dropped and the old source kept, so rendering depends on history" % (
+                           c.name, "keeps an existing entry" if sem == "keep-first" else "is not a reviewed map API", tier),
+                       f.where(c.bb))
+            else:
+                ctx.ob("C15.U2.loader-fill-keeps-first", "%s|%s" % (f.path, tier), sem == "keep-first",
+                       "%s %s: a loader-backed template must keep the source it had when first requested" % (
+                           c.name, "overwrites" if sem == "overwrite" else "is not a reviewed map API"), f.where(c.bb))
             ok = False
             for r, rt, _ in rem:
                 if rt == other and (cfg.dominates(f, r.bb, c.bb) or cfg.paths_must_pass(f, c.bb, [r.bb], f.returns())):
